@@ -76,6 +76,8 @@ impl Phase {
 pub enum Input {
     Index(u64),
     Tape(Vec<u8>),
+    /// hand-written regression case (replay files with "kind":"text"); run against phase 0 of the check
+    Text(String),
 }
 
 #[derive(Clone, Debug)]
